@@ -19,7 +19,7 @@ from vf.props.common import harness_error, inconclusive, proved, violation
 ID = "C03"
 LEVEL = "model_checking"
 ITEM_BUDGET_S = {"quick": 300, "thorough": 1200}
-QT = {"quick": 15000, "thorough": 60000}
+QT = {"quick": 15000, "thorough": 20000}
 _TIER = "quick"
 PATHS_SEEN = set()
 
@@ -27,7 +27,7 @@ META = dict(
     rule="one case = (expression list, variable order V, observation, entry (i,j), path); non-trivial = list with >=1 decided query",
     bounds={
         "quick": "m<=3 expressions; singles from the depth<=2 family restricted to vector/matrix nodes, affine wrappers and a scalar sample; n=3 vectors (and n=1,2 for the vectorised sums); |V|<=7; every permutation when <=3 variables, rotations otherwise, supersets with one unused variable",
-        "thorough": "full depth<=2 family as singles, n up to 5, two unused variables, random lists",
+        "thorough": "700 recipes of the depth<=3 family as singles, n up to 4, two unused variables, 90 VERIF_SEED random lists",
     },
     outside=["rounding (S7)", "non-regular points (C19 covers sanitisation)", "m>3, n>5"],
     assumptions=["S1", "S2", "S3 (isfinite == True on reals)", "S6", "S7"],
@@ -43,7 +43,7 @@ def worker_init(tier, seed):
 def family(tier):
     X, Y, C = K.X, K.Y, K.C
     out = []
-    for n in ((3,) if tier == "quick" else (1, 2, 3, 4, 5)):
+    for n in ((3,) if tier == "quick" else (1, 2, 3, 4)):
         vn = K.vec_nodes(n, full=(n >= 2))
         for r in vn:
             out.append([r])
@@ -103,6 +103,8 @@ def family(tier):
     if tier == "quick":
         rng = random.Random(5)
         fam = rng.sample(fam, 250)
+    else:
+        fam = random.Random(5).sample(fam, min(len(fam), 700))
     out += [[r] for r in fam]
     seen, uniq = set(), []
     for l in out:
@@ -116,11 +118,11 @@ def family(tier):
 def items(tier, seed):
     fam = family(tier)
     if tier == "thorough":
-        rr = K.random_recipes(seed, 300, 2)
+        rr = K.random_recipes(seed, 120, 2)
         rng = random.Random(seed)
-        fam += [[r] for r in rr[:150]] + [[rr[i], rr[i + 1]] for i in range(150, 298, 2)]
+        fam += [[r] for r in rr[:60]] + [[rr[i], rr[i + 1]] for i in range(60, 118, 2)]
     its = [("twin", 0)] + [("ls", ch) for ch in K.chunks(fam, 3)]
-    return its + K.touched_items(its, 3 if tier == "quick" else 1, ("ls",))
+    return its + K.touched_items(its, 3, ("ls",))
 
 
 def observe(recipes, order, val):
